@@ -29,7 +29,7 @@ def mask_html(text):
     return re.sub(r'Analysis Date: [^<]*<', 'Analysis Date: DATE<', text or '')
 
 
-def run_all(text, charset='E', reuse_param=None):
+def run_all(text, charset='E', reuse_param=None, exclude=None):
     """-> dict of observable outputs (all strings)"""
     import pyx12.params
     import pyx12.x12n_document
@@ -38,6 +38,7 @@ def run_all(text, charset='E', reuse_param=None):
     res = {}
     param = reuse_param if reuse_param is not None else pyx12.params.params()
     param.set('charset', charset)
+    param.set('exclude_external_codes', exclude)
     fd_997, fd_html, fd_xml = io.StringIO(), io.StringIO(), io.StringIO()
     try:
         v = pyx12.x12n_document.x12n_document(param, io.StringIO(text), fd_997, fd_html, fd_xml)
@@ -85,4 +86,4 @@ if __name__ == '__main__':
     warnings.simplefilter('ignore')
     import logging
     logging.disable(logging.CRITICAL)
-    json.dump(run_all(req['text'], req.get('charset', 'E')), sys.stdout)
+    json.dump(run_all(req['text'], req.get('charset', 'E'), exclude=req.get('exclude')), sys.stdout)
